@@ -150,4 +150,11 @@ var propSpecs = []PropSpec{
 		NotDecided:  "YAML scalars with escapes, multi-line or non-ASCII text (bytes vs columns); positions computed by go-yaml; the 1 <= line <= #lines bound",
 		Assumptions: commonAssumptions,
 	},
+	{
+		ID:          "C18",
+		Rules:       []string{"C18.COLOUR", "C18.CYCLE", "C18.REPORT", "C02.MAP", "C02.SORT", "C08.KEYW", "C08.KEYR"},
+		Explanation: "Exactness over all graphs is a property of a graph algorithm; decided is the discipline the algorithm's correctness and termination rest on: (COLOUR) the depth-first search marks a node active before looking at neighbours, finishes it on every path that returns no cycle and never on a path that returns one, recurses only into neighbours whose status is new (so each node is visited at most once: termination), reports edge{current, neighbour} only for a neighbour that is active, propagates a deeper cycle, starts only at new nodes, considers all nodes, and nobody else writes the status; (CYCLE) the reconstruction follows active nodes only, records the edge before descending, never re-enters a node of the collected path (depth bounded by the number of nodes) and removes failed branches; (REPORT) a dangling reference is reported iff the lookup of the needs entry fails, at the referring job, edges are exactly the entries that exist, cycle detection is control-dependent on no reference dangling, runs once, and exactly one diagnostic is emitted iff a back edge was returned, reconstructed from that edge; (MAP/SORT shared with C02) the verdict and the printed cycle do not depend on map order; (KEYW/KEYR shared with C08) ids are compared lower-cased.",
+		NotDecided:  "that the printed node sequence is a cycle of the graph for every graph and that the message loop terminates (these follow from the invariants above by an inductive argument that is not mechanised here); duplicate job ids",
+		Assumptions: commonAssumptions,
+	},
 }
